@@ -67,6 +67,8 @@ G_Fault(k, t) ==
 \* the racing API transition, parked early (lock acquired, nothing sent) or late (state entered, lock held)
 G_Api(g) ==
   /\ Stable /\ txgate = "none" /\ g \in {"early", "late"}
+  \* the transition must get as far as its after_<EVENT> hook to park there
+  /\ (g = "late" => \A t \in sick : ~crit[t])
   /\ ApiAcquire
   /\ txgate' = g
   /\ Step(<<"api", IF envSt = "CONFIGURED" THEN "START" ELSE "STOP", g>>)
